@@ -379,6 +379,7 @@ func (w *World) mutatingSites(r *Report) []mutSite {
 type effOpts struct {
 	e1, e2, e3, e4, e5 bool
 	impl               bool   // also check that the WriteFile implementation replaces the whole file
+	implDir            bool   // only the clauses of that check about where it writes (temp files, rename target)
 	onlyPkg            string // restrict E1 to this package's functions
 }
 
@@ -403,7 +404,7 @@ func ruleEFF(w *World, r *Report, o effOpts) {
 		case isDefaultFileIOWrite(m.Fn):
 			nPrim++
 			if o.e1 {
-				if why := writeImplProblem(m); why != "" && o.impl {
+				if why := writeImplProblem(m); why != "" && (o.impl || (o.implDir && (strings.Contains(m.Callee, "Temp") || m.Callee == "os.Rename"))) {
 					r.bad("EFF", k, w.ipos(m.Call), why)
 				} else {
 					r.ok("EFF", k, w.ipos(m.Call), "mutating primitive inside the fileIO implementation's WriteFile; replaces the whole file with the data parameter")
@@ -553,6 +554,15 @@ func writeImplProblem(m mutSite) string {
 			if stripConv(args[1]) != params[2] {
 				return "the data given to " + m.Callee + " is not the method's data parameter"
 			}
+		}
+	case "io/ioutil.TempFile", "os.CreateTemp", "io/ioutil.TempDir", "os.MkdirTemp":
+		// a temporary file must be made beside the target, not in the system's temp directory
+		if len(args) >= 1 && len(params) >= 2 && !dependsOn(args[0], params[1]) {
+			return m.Callee + " creates its file in a directory that is not derived from the method's path parameter (the system temp directory): Repair and Create then write outside the set's directory, and a failed rename leaves the data there"
+		}
+	case "os.Rename":
+		if len(args) >= 2 && len(params) >= 2 && stripConv(args[1]) != params[1] {
+			return "os.Rename inside WriteFile does not move the file onto the method's path parameter"
 		}
 	case "os.OpenFile":
 		if len(args) >= 2 {
